@@ -40,6 +40,10 @@ CHECKS = {
    text="For runs of one warm-up plus 2..200 wrapped calls under generated configurations (every data source, every output including unreachable, full and unwritable sinks, filters with empty arguments, invalid and duplicate options, error logging), uids, stdin kinds and controlling ttys, the driver compares /proc/self/fd (targets + cloexec), environ pointer and hash, cwd, umask, signal mask, all sigactions and the lock depth before the call, at the instant the real exec is entered and after return; an interposed allocator attributes live blocks to Snoopy by backtrace and demands that nothing allocated during a call is live at the real exec and that the live count does not grow over the run. Thread-safe and non-thread-safe builds.",
    note="Allocator attribution by backtrace (first 10 frames); libc one-time caches absorbed by the warm-up call; the strace-injected error paths share this oracle in the C03 check's residue arm."),
 
+ "C17": dict(level="exploration", design="3/C17", technique="strace per-record syscall monitor + concurrent-writer stress with self-describing records",
+   text="Arm 1 traces the syscalls Snoopy issues for each record (sizes 1 B..1 MiB incl. 4094..4097/8191..8193 and random sizes; file with pre-existing content, devnull, devtty): exactly one open of the target with O_APPEND and no O_TRUNC, exactly one write whose length and return value equal the whole record, no truncation, earlier bytes intact. Arm 2 lets 2..16 writers (processes x threads) append self-describing records of mixed sizes through the production library and requires the file to parse as whole records whose multiset equals what was issued.",
+   note="Relies on the kernel's atomicity of a single write(2) on an O_APPEND descriptor; stress covers the interleavings that happened, not all."),
+
  "C18": dict(level="exploration", design="3/C18-C19", technique="runtime monitoring of the real snoopyctl against a reference model, exhaustive over small files",
    text="The snoopyctl built from the working tree is run (enable, enable again, status) on every ld.so.preload content of up to 3 (quick) / 4 (thorough) lines over an 18-kind line alphabet, terminated and unterminated, plus absent/empty and thousands of random files; file bytes, exit status and status output are compared with preload_model. Exhaustive for the enumerated small files, sampled beyond.",
    note="Trusts the SNOOPY_TEST_* path overrides (the suite's own mechanism) and the model of 'comment line' / 'active entry' in DESIGN A.3; open points of the property accept several outcomes."),
